@@ -16,9 +16,13 @@ for sid in ids:
         print(sid, 'PATCH DOES NOT APPLY')
         continue
     det = {}
+    own = json.load(open(os.path.join(d, 'meta.json')))['breaks_property']
     try:
         for p in props:
-            out = subprocess.run([os.path.join(VERIF, 'check'), p, '--no-evidence'], capture_output=True, text=True, cwd=VERIF)
+            env = dict(os.environ)
+            if p != own:
+                env['VERIF_STATIC_ONLY'] = '1'      # witnesses are rebuilt only for the seeded property itself
+            out = subprocess.run([os.path.join(VERIF, 'check'), p, '--no-evidence'], capture_output=True, text=True, cwd=VERIF, env=env)
             viol = re.findall(r'^([A-Z][A-Z0-9\-()]*(?:\([^)]*\))?): (.*)$', out.stdout, re.M)
             lines = [l for l in out.stdout.splitlines() if l.startswith('VIOLATION')]
             rules = sorted({l.split(':')[0] for l in out.stdout.splitlines() if re.match(r'^[A-Z][A-Za-z0-9_\-()]+: ', l) and not l.startswith(('VIOLATION', 'KNOWN-FINDING', 'SELFTEST'))})
